@@ -229,6 +229,40 @@ func c07R2(c *Ctx) {
 	}
 	// create helpers receive only paths built by those joins
 	c07CreateHelperArgs(c, fns)
+	// the per-path-id map is keyed by the peer's path id: every *sourceFile handed to a name-to-path
+	// function is one decoded from the peer (a locally synthesised one has PathID 0 and would make
+	// later files reuse the first file's local name)
+	for _, f := range fns {
+		for i, p := range f.Params {
+			if !strings.HasSuffix(p.Type().String(), "sourceFile") {
+				continue
+			}
+			usesMap := false
+			eachInstr(f, func(in ssa.Instruction) {
+				if l, ok := in.(*ssa.Lookup); ok {
+					if _, fl, ok := fieldOf(l.Index); ok && fl == "PathID" {
+						usesMap = true
+					}
+				}
+			})
+			if !usesMap {
+				continue
+			}
+			for _, cs := range c.callersOf(f) {
+				arg := cs.Instr.Common().Args[i]
+				good := true
+				n := 0
+				for _, l := range origins(arg, originOpts{}) {
+					n++
+					call, idx := callOf(l.V)
+					if call == nil || idx != 0 || calleeID(&call.Call) != "trzsz.unmarshalSourceFile" {
+						good = false
+					}
+				}
+				c.check(good && n > 0, c.fnName(f)+"/srcFile<-decoder@"+c.fnName(cs.Caller), c.ipos(cs.Instr), "the path id that keys the fresh-name map is the peer's", "a locally built sourceFile (path id 0) reaches the per-path-id name map: later files reuse the first file's name and overwrite it")
+			}
+		}
+	}
 }
 
 // c07MapOnlyFresh: every store into map field mf stores a getNewName result.
